@@ -157,7 +157,7 @@ class _Tagged(nnx.Variable):
 TAGS = ['t0', 't1']
 KEYS = ['k0', 'k1', 3]
 VTYPES = [nnx.Param, nnx.BatchStat, _Tagged, nnx.Variable]
-TAGV = [None, 't0', 't1']
+TAGV = [None, 't0', 't1', 't']      # 't' is a proper substring of the others
 
 # (label, constructor, reference predicate(path, vtype, tag))
 LEAVES = [
@@ -180,6 +180,7 @@ LEAVES = [
      lambda p, t, g: issubclass(t, _Tagged)),
     ('Everything()', lambda: FL.Everything(), lambda p, t, g: True),
     ('Nothing()', lambda: FL.Nothing(), lambda p, t, g: False),
+    ("'t'", lambda: 't', lambda p, t, g: g == 't'),
 ]
 NLEAF = len(LEAVES)
 NRED = 6
@@ -363,7 +364,7 @@ def obligations(tier):
   red = I(0, (NRED if quick else NLEAF) - 1)
   obs += [
       Ob('nnx_leaf', nnx_leaf,
-         dict(c=I(0, NLEAF - 1), p0=I(0, 2), p1=I(0, 2), vt=I(0, 3), tg=I(0, 2),
+         dict(c=I(0, NLEAF - 1), p0=I(0, 2), p1=I(0, 2), vt=I(0, 3), tg=I(0, 3),
               as_state=B()), split=('c',), timeout=240, funcs=NF_,
          bounds='%d leaf filter kinds x paths over 3 keys (len 2) x 4 Variable '
                 'types x 3 tags x {Variable, VariableState}' % NLEAF),
